@@ -14,7 +14,7 @@ enum { BK_HDR_ONLY = 0, BK_TRUNC, BK_GARBAGE, BK_BADVER, BK_UNKTYPE, BK_OVERSIZE
 static const char *bk_name[] = { "hdr_only", "trunc_payload", "garbage", "bad_version", "unknown_type", "oversize_len",
     "zero_len", "non_module", "bad_crc", "ping_junk", "status", "slow_reader", "disconnect_mid_output", "hostile_module" };
 
-typedef struct PClient { char prog[32]; int tok; uint64_t arrive; int kill_sys; } PClient;
+typedef struct PClient { char prog[32]; int tok; uint64_t arrive; int kill_sys; int copkill; /* kill this session's co-process at its n-th system call */ } PClient;
 typedef struct PBad { int kind; int arg; uint64_t arrive; char prog[32]; int tok; } PBad;
 typedef struct DPlan {
     char sub[8];               /* c17 | c18 */
@@ -70,6 +70,7 @@ static void plan_gen(DPlan *P, uint64_t seed, const RunOpts *o) {
         for (int j = 0; j < i; j++) if (P->c[j].tok == c->tok && strcmp(P->c[j].prog, c->prog) == 0) { c->tok = (c->tok + 1) % nt; j = -1; }
         c->arrive = window ? sim_rndn((uint32_t)window) : 0;
         if (c18 && sim_rndn(3) == 0) c->kill_sys = 1 + (int)sim_rndn(60);
+        else if (c18 && sim_rndn(2) == 0) c->copkill = 1 + (int)sim_rndn(14);   /* only matters for sessions that use externs */
     }
     if (c18) {
         P->nbad = 1 + (int)sim_rndn(quick ? 6 : 12);
@@ -89,7 +90,7 @@ static void plan_print(DPlan *P, uint64_t seed, Buf *b) {
     knobs_print(b);
     buf_printf(b, "mode %d\nverbose %d\n", P->mode, P->verbose);
     for (int i = 0; i < P->nclients; i++)
-        buf_printf(b, "client prog=%s tok=%d arrive=%llu kill=%d\n", P->c[i].prog, P->c[i].tok, (unsigned long long)P->c[i].arrive, P->c[i].kill_sys);
+        buf_printf(b, "client prog=%s tok=%d arrive=%llu kill=%d copkill=%d\n", P->c[i].prog, P->c[i].tok, (unsigned long long)P->c[i].arrive, P->c[i].kill_sys, P->c[i].copkill);
     for (int i = 0; i < P->nbad; i++)
         buf_printf(b, "bad kind=%s arg=%d arrive=%llu prog=%s tok=%d\n", bk_name[P->b[i].kind], P->b[i].arg,
                    (unsigned long long)P->b[i].arrive, P->b[i].prog, P->b[i].tok);
@@ -105,8 +106,9 @@ static bool plan_parse(DPlan *P, uint64_t *seed, const char *path) {
         else if (strncmp(line, "knob ", 5) == 0) knobs_parse_line(line);
         else if (sscanf(line, "mode %d", &t) == 1) P->mode = t;
         else if (sscanf(line, "verbose %d", &t) == 1) P->verbose = t;
-        else if (sscanf(line, "client prog=%31s tok=%d arrive=%llu kill=%d", prog, &t, &a, &k) == 4 && P->nclients < 64) {
-            PClient *c = &P->c[P->nclients++]; snprintf(c->prog, sizeof c->prog, "%s", prog); c->tok = t; c->arrive = a; c->kill_sys = k;
+        else if (sscanf(line, "client prog=%31s tok=%d arrive=%llu kill=%d copkill=%d", prog, &t, &a, &k, &arg) >= 4 && P->nclients < 64) {
+            PClient *c = &P->c[P->nclients++]; snprintf(c->prog, sizeof c->prog, "%s", prog); c->tok = t; c->arrive = a; c->kill_sys = k; c->copkill = 0;
+            { int ck = 0; if (sscanf(line, "client prog=%*s tok=%*d arrive=%*u kill=%*d copkill=%d", &ck) == 1) c->copkill = ck; }
         } else if (sscanf(line, "bad kind=%31s arg=%d arrive=%llu prog=%31s tok=%d", kind, &arg, &a, prog, &t) == 5 && P->nbad < 24) {
             PBad *b = &P->b[P->nbad++]; b->kind = -1;
             for (int i = 0; i < BK_NKINDS; i++) if (strcmp(bk_name[i], kind) == 0) b->kind = i;
@@ -250,8 +252,14 @@ static void *prober(void *arg) {
 
 /* ---------------- client kill injection ---------------- */
 static struct { SimProc *p; int at; } kills[64]; static int nkills;
+static int copkill_at[64]; static int ncopkill; static SimProc *cops_seen[64]; static int ncops_seen; static int copkills_fired;
 static int pre_syscall_hook(SimProc *p, const char *name, int fd, size_t n) {
     (void)name; (void)fd; (void)n;
+    if (ncopkill && p->img && strcmp(p->img->name, "nano_cop") == 0 && !p->in_vfork_child) {
+        int idx = -1; for (int i = 0; i < ncops_seen; i++) if (cops_seen[i] == p) idx = i;
+        if (idx < 0 && ncops_seen < 64) { idx = ncops_seen; cops_seen[ncops_seen++] = p; }
+        if (idx >= 0 && idx < ncopkill && copkill_at[idx] && (int)p->syscalls >= copkill_at[idx]) { copkill_at[idx] = 0; copkills_fired++; return SIGKILL; }
+    }
     for (int i = 0; i < nkills; i++) if (kills[i].p == p && kills[i].at && (int)p->syscalls >= kills[i].at) { kills[i].at = 0; return SIGKILL; }
     return 0;
 }
@@ -320,7 +328,9 @@ static void fam_run(uint64_t seed, const RunOpts *o, Result *r) {
         cl[i] = sim_spawn(role, "nano_vm", 3, av, &cout[i], &cerr[i], at);
         if (P.c[i].kill_sys) { kills[nkills].p = cl[i]; kills[nkills].at = P.c[i].kill_sys; nkills++; }
     }
-    if (nkills) sim_hooks.pre_syscall = pre_syscall_hook;
+    ncopkill = 0; ncops_seen = 0; copkills_fired = 0;
+    for (int i = 0; i < P.nclients; i++) if (P.c[i].copkill) { Module *m = corpus_find(P.c[i].prog, P.c[i].tok); if (m && m->needs_extern) copkill_at[ncopkill++] = P.c[i].copkill; }
+    if (nkills || ncopkill) sim_hooks.pre_syscall = pre_syscall_hook;
     static BadState bs[24];
     for (int i = 0; i < P.nbad; i++) {
         memset(&bs[i], 0, sizeof bs[i]); bs[i].b = &P.b[i]; bs[i].idx = i;
@@ -354,6 +364,9 @@ static void fam_run(uint64_t seed, const RunOpts *o, Result *r) {
         if (!buf_eq(&cout[i], &ref->out)) what = "stdout";
         else if (exit_code_of(cl[i]->status) != exit_code_of(ref->status)) what = "status";
         else if (!buf_eq(&e1, &e2)) what = "stderr";
+        bool session_may_fail = ncopkill > 0 && corpus_find(P.c[i].prog, P.c[i].tok)->needs_extern;
+        if (what && session_may_fail && exit_code_of(cl[i]->status) == 1 && e1.len > 0 && cout[i].len <= ref->out.len &&
+            (cout[i].len == 0 || memcmp(cout[i].d, ref->out.d, cout[i].len) == 0)) { what = NULL; }   /* co-process was killed under it: contained failure (C16's outcome) */
         if (what) {
             mismatches++;
             res_violation(r, prop, "client-mismatch:%s:%s", what, P.c[i].prog);
@@ -393,6 +406,7 @@ static void fam_run(uint64_t seed, const RunOpts *o, Result *r) {
       for (int k = 0; k < BK_NKINDS; k++) if (kc[k]) { char nm[48]; snprintf(nm, sizeof nm, "bad_%s", bk_name[k]); probe(r, nm, (uint64_t)kc[k]); } }
     { uint64_t hs = 0, hk = 0, hl = 0; for (int i = 0; i < P.nbad; i++) { hs += bs[i].sent_hostile; hk += bs[i].skipped; hl += bs[i].standalone_loaded; }
       probe(r, "hostile_sent", hs); probe(r, "hostile_skipped_standalone_crash_or_spin", hk); probe(r, "hostile_that_standalone_executes", hl); }
+    probe(r, "cop_killed_in_session", (uint64_t)copkills_fired);
     int nk = 0; for (int i = 0; i < P.nclients; i++) if (P.c[i].kill_sys && WIFSIGNALED(cl[i]->status)) nk++;
     probe(r, "clients_killed", (uint64_t)nk);
 }
